@@ -974,6 +974,13 @@ def _bool(it, v=False):
 
 @builtin("abs")
 def _abs(it, v):
+    from .values import Mat as _Mat
+
+    if isinstance(v, _Mat):
+        from . import matmodel as _mm
+
+        e = _mm.entry_fn(it, v)
+        return _Mat(v.rows, v.cols, lambda i, j: ops.zabs(ops._real(e(i, j))), name=it.path.fresh_name("abs_" + v.name), region="FRESH", fmt=v.fmt)
     if _is_arrayish(v):
         return wrap(ops.elementwise(ops.zabs, None, v))
     return _prop_np(it, ops.zabs(v), v)
